@@ -1051,6 +1051,12 @@ def set_method(ip, o, name, args, kw, ctx):
                 d = DeferredSet()
                 o.deferred = d
             return sched_method(ip, d, "add", [x], {}, ctx)
+        if isinstance(x, Seq) and isinstance(x.to_python(), Seq):
+            for y in list(o.s):
+                if ctx.branch(ip.truth(ip.equals(y, x, ctx), ctx)):
+                    return None
+            o.s.add(x)          # identity-hashed symbolic element
+            return None
         o.s.add(ip.concrete_key(x, ctx))
         return None
     if name == "discard":
